@@ -24,6 +24,10 @@ class Boom(Exception):
     pass
 
 
+class Interrupt(BaseException):
+    """What KeyboardInterrupt, SystemExit and GeneratorExit are: not an Exception, still a way out of a with-block."""
+
+
 # ---- acceptor refuses ------------------------------------------------------------------------------
 def acceptor_reject(triple, messages_after=1):
     from pynetdicom2 import exceptions, sopclass
@@ -303,10 +307,10 @@ def requester_exit(mode, where, results=(0,)):
     from pynetdicom2 import exceptions
     case = {'kind': 'requester-exit', 'mode': mode, 'where': where, 'results': list(results)}
     ae = make_client()
-    fac = fd.Factory([lambda d: setattr(d, 'responder', peer(['ok', 'half-find', 'ok'] if mode == 'generator' else [],
+    fac = fd.Factory([lambda d: setattr(d, 'responder', peer(['ok', 'half-find', 'ok'] if mode in ('generator', 'abandoned-generator') else [],
                                                              tuple(results)))])
     thrown = {'Boom': Boom('x'), 'KeyError': KeyError('k'), 'NetDICOMError': exceptions.NetDICOMError('n'),
-              'generator': Boom('in generator')}.get(mode)
+              'generator': Boom('in generator'), 'Interrupt': Interrupt('stop')}.get(mode)
     raised = None
     try:
         with fd.installed(fac):
@@ -320,6 +324,18 @@ def requester_exit(mode, where, results=(0,)):
                         if where == 'between':
                             exchange(assoc, 'echo', 0)
                 mode = 'normal'
+                raise _Done()
+            if mode == 'abandoned-generator':
+                # the with-block lives in a generator function (as in the c_find() wrapper of the package); its caller
+                # takes the first match and drops the generator: the block is left by GeneratorExit
+                def wrapper():
+                    with ae.request_association(dict(REMOTE)) as assoc:
+                        exchange(assoc, 'echo', 0)
+                        for item in assoc.get_scu(svc.PATIENT_FIND)(svc.simple_ds(PatientName='*', QueryRetrieveLevel='PATIENT'), 7):
+                            yield item
+                g_ = wrapper()
+                next(g_)
+                g_.close()
                 raise _Done()
             with ae.request_association(dict(REMOTE)) as assoc:
                 if where == 'between':
@@ -338,6 +354,14 @@ def requester_exit(mode, where, results=(0,)):
         raised = exc
     dul = fac.instances[0]
     kinds = [r['spec'].get('t') for r in dul.sent_pdus()][1:]
+    if mode == 'abandoned-generator':
+        if raised is not None:
+            raise Violation('%s:exit:abandoned-raised:%s' % (PROP, lib_frame(raised)), 'closing the generator raised %r' % (raised,), case)
+        if kinds not in ([7], [5]) or not dul.killed:
+            raise Violation('%s:exit:abandoned' % PROP, 'a with-block left because the generator it lives in was closed after the '
+                            'first C-FIND match: PDUs sent afterwards %r (expected an A-ABORT), provider stopped: %s - the '
+                            'association is neither released nor aborted, its provider thread lives on' % (kinds, dul.killed), case)
+        return
     if mode == 'normal':
         if raised is not None:
             raise Violation('%s:exit:normal-raised:%s' % (PROP, lib_frame(raised)), 'normal exit raised %r' % (raised,), case)
@@ -682,7 +706,7 @@ def run(ctx):
                 '0-255^3; requester rejected with the same triples; peer A-ABORT (standard and generated source/reason) '
                 'or A-RELEASE-RQ arriving before any DIMSE exchange, between two exchanges, inside a half-consumed '
                 'C-FIND response stream and during a multi-fragment C-STORE; leaving request_association normally or '
-                'through 3 exception types / an exception raised while an SCU generator is half consumed; acceptor '
+                'through 3 exception types / a BaseException (as KeyboardInterrupt is) / an exception raised while an SCU generator is half consumed / the generator the with-block lives in being closed early; acceptor '
                 'side peer abort/release after 0-3 served requests; one long-lived entity answering 300-330 associations in a row (refused / served / aborted) each judged as if it were the first; 10 loopback cases with a raw-socket peer (incl. normal exit while responses are still in flight, and an abort arriving while a 24 MiB C-STORE is being sent to a peer that stopped reading); non-trivial = non-default field values or an event '
                 'in mid-exchange')
     ctx.assumptions = ['provider replaced by vf/fakedul.py (the own handling by the provider of these PDUs is C04/C05)',
@@ -700,12 +724,12 @@ def run(ctx):
             ctx.case(('peer', pos, ev), pos != 'first' or ev[1:] not in ((), (0, 0)), labels=['peer-' + ev[0], 'at=' + pos],
                      sample={'position': pos, 'event': ev})
             ctx.check(requester_peer_event, pos, kind, ev)
-    for mode in ('normal', 'normal-in-handler', 'Boom', 'KeyError', 'NetDICOMError', 'generator'):
+    for mode in ('normal', 'normal-in-handler', 'Boom', 'KeyError', 'NetDICOMError', 'generator', 'Interrupt', 'abandoned-generator'):
         for where in ('first', 'between'):
             ctx.case(('exit', mode, where), mode != 'normal' or where == 'between', labels=['exit=' + mode],
                      sample={'exit': mode, 'where': where})
             ctx.check(requester_exit, mode, where)
-        if mode != 'generator':
+        if mode not in ('generator', 'abandoned-generator'):
             # the peer accepted the association but none / only the first (verification) of its contexts
             for results in ((3,), (1, 2, 3, 4), (0, 3, 4)):
                 ctx.case(('exit', mode, results), True, labels=['exit=' + mode, 'contexts-refused'],
